@@ -369,7 +369,8 @@ def sample_quota(items, key, quota, seed):
     out = []
     for k in sorted(groups, key=repr):
         g = groups[k]
-        if len(g) > quota:
-            g = rnd.sample(g, quota)
+        q = quota.get(k[0] if isinstance(k, tuple) else k, 8) if isinstance(quota, dict) else quota
+        if len(g) > q:
+            g = rnd.sample(g, q)
         out += g
     return out
